@@ -363,6 +363,9 @@ func (eng *Engine) checkProperty(id, tier string, timeoutFlag, workers int, keep
 	}
 	viols = append(viols, contractViols...)
 	nObl += len(contractViols)
+	if os.Getenv("VERIF_WRITE_HINTS") != "" {
+		eng.writeHints(run.results)
+	}
 	if os.Getenv("VERIF_WRITE_UNCLAIMED") != "" {
 		// maintenance mode: record every currently failing obligation of this property as unclaimed (reason to be edited)
 		var rest []Unclaimed
